@@ -82,6 +82,28 @@ def check(ctx: Ctx) -> None:
                 optional[(norm(n.func.value), n.args[0].value)] = n
             if isinstance(n, ast.Compare) and isinstance(n.ops[0], (ast.In, ast.NotIn)) and isinstance(n.left, ast.Constant):
                 optional[(norm(n.comparators[0]), n.left.value)] = n
+        # defaults filled in by a loop over a table: for key, default in TABLE.items(): if key not in D: D[key] = default
+        ensured: Dict[Tuple[str, str], int] = {}
+        from ..elements import module_consts
+        mc = module_consts(ctx.repo, DS)
+        for lp in [n for n in walk_ordered(fi.node) if isinstance(n, ast.For) and isinstance(n.iter, ast.Call) and isinstance(n.iter.func, ast.Attribute)
+                   and n.iter.func.attr == "items" and isinstance(n.target, ast.Tuple) and len(n.target.elts) == 2]:
+            tab = n_tab = None
+            src_t = lp.iter.func.value
+            if isinstance(src_t, ast.Name):
+                loc = [x.value for x in walk_ordered(fi.node) if isinstance(x, (ast.Assign, ast.AnnAssign)) and x.value is not None
+                       and norm(x.targets[0] if isinstance(x, ast.Assign) else x.target) == src_t.id]
+                tab = loc[0] if len(loc) == 1 else mc.get(src_t.id)
+            if not isinstance(tab, ast.Dict) or not all(isinstance(k_, ast.Constant) for k_ in tab.keys):
+                continue
+            kv, vv = norm(lp.target.elts[0]), norm(lp.target.elts[1])
+            for st_ in lp.body:
+                if isinstance(st_, ast.If) and isinstance(st_.test, ast.Compare) and isinstance(st_.test.ops[0], ast.NotIn) and norm(st_.test.left) == kv \
+                        and any(isinstance(a_, ast.Assign) and norm(a_.targets[0]) == f"{norm(st_.test.comparators[0])}[{kv}]" and norm(a_.value) == vv for a_ in st_.body):
+                    dname = norm(st_.test.comparators[0])
+                    for k_ in tab.keys:
+                        optional[(dname, k_.value)] = st_.test
+                        ensured[(dname, k_.value)] = getattr(lp, "end_lineno", lp.lineno)
         for (d, k), src in optional.items():
             n52 += 1
             ctx.instance("R5.2", f"{qual}: optional key {d}[{k!r}]")
@@ -104,7 +126,8 @@ def check(ctx: Ctx) -> None:
                         a = any(isinstance(x, ast.Assign) and norm(x.targets[0]) == f"{d}[{k!r}]" for x in m.body)
                         b = any(isinstance(x, ast.Assign) and norm(x.targets[0]) == f"{d}[{k!r}]" for x in m.orelse)
                         both_arms = both_arms or (a and b)
-                if not (guarded or stored or both_arms):
+                after_fill = (d, k) in ensured and sub.lineno > ensured[(d, k)]
+                if not (guarded or stored or both_arms or after_fill):
                     bad = sub
                     break
             if bad is not None:
@@ -197,8 +220,9 @@ def check(ctx: Ctx) -> None:
         # four points (each key absent / False / True) and both selections, and compare with the specification
         from itertools import product
         from ..miniinterp import InterpRaise, Mini, Obj
-        stubs = {"array": lambda x, *a, **k: list(x), "_is_boolean": lambda x: isinstance(x, bool), "Frequency": float, "ComplexImpedance": complex,
-                 "where": None, "NDArray": None}
+        from ..nplite import NP_STUBS, NArr
+        stubs = dict(NP_STUBS)
+        stubs.update({"_is_boolean": lambda x: isinstance(x, bool), "NDArray": None})
         for qual, attr in getters:
             fi = model.fi(DS, qual)
             d = fi.node.args.defaults
@@ -214,7 +238,7 @@ def check(ctx: Ctx) -> None:
                     mask = {i: v for i, v in enumerate(combo) if v != "absent"}
                     for masked in (None, False, True):
                         n_w += 1
-                        me = Obj(Mini(stubs), ds_methods, {"_frequencies": [("f", i) for i in range(n)], "_impedances": [("Z", i) for i in range(n)], "_mask": dict(mask)})
+                        me = Obj(Mini(stubs), ds_methods, {"_frequencies": NArr(("f", i) for i in range(n)), "_impedances": NArr(("Z", i) for i in range(n)), "_mask": dict(mask)})
                         try:
                             got = list(Mini(stubs).call_function(fi.node, {"self": me, "masked": masked}))
                         except InterpRaise as e:
@@ -362,6 +386,14 @@ def check(ctx: Ctx) -> None:
         ctx.violation("R5.6", "_parse_v1:targets", DS, v1.node, f"_parse_v1 produces keys {sorted(v1_new - set(out_keys))} that are not version-2 keys")
     ver = fold_const(model.const(DS, "VERSION"))
     pd = next((n for n in walk_ordered(pr.node) if isinstance(n, (ast.Assign, ast.AnnAssign)) and norm(n.targets[0] if isinstance(n, ast.Assign) else n.target) == "parsers"), None)
+    if pd is not None and isinstance(pd.value, ast.Name):
+        # the table may be a module-level constant the local name refers to
+        from ..elements import module_consts
+        tv = module_consts(ctx.repo, DS).get(pd.value.id)
+        if isinstance(tv, ast.Dict):
+            import copy as _c
+            pd = _c.copy(pd)
+            pd.value = tv
     if pd is None or not isinstance(pd.value, ast.Dict):
         raise AnalysisError("DataSet._parse: parsers table not found")
     pkeys = [k.value for k in pd.value.keys if isinstance(k, ast.Constant)]
